@@ -12,6 +12,7 @@ package c18
 
 import (
 	"crypto/sha1"
+	"encoding/base64"
 	"encoding/hex"
 	"encoding/json"
 	"fmt"
@@ -36,16 +37,24 @@ type scenario struct {
 	Shape  string   `json:"shape"`
 	Target string   `json:"target"`
 	Edit   string   `json:"edit"`
+	To     string   `json:"to"`
 	PP     bool     `json:"pp"`
 	Names  string   `json:"names"`
 	SM     string   `json:"sm"`
+	SC     bool     `json:"sc"`
+	SRoot  bool     `json:"sroot"`
 	Legal  string   `json:"legal"`
 	Minify bool     `json:"minify"`
 	Expect []string `json:"expect"`
+	Touch  []string `json:"touch"`
 }
 
 func (s scenario) id() string {
-	return fmt.Sprintf("%s/%s/%s/pp%v/%s/%s/%s/m%v", s.Shape, s.Target, s.Edit, s.PP, s.Names, s.SM, s.Legal, s.Minify)
+	to := ""
+	if s.To != "" && s.To != "-" {
+		to = ">" + s.To
+	}
+	return fmt.Sprintf("%s/%s/%s%s/pp%v/%s/%s/sc%v/sr%v/%s/m%v", s.Shape, s.Target, s.Edit, to, s.PP, s.Names, s.SM, s.SC, s.SRoot, s.Legal, s.Minify)
 }
 
 // one emitted file as HashState.tla sees it
@@ -79,12 +88,37 @@ type record struct {
 
 const fakeKeys = "AAAAAAAAAAAAAAAAC00000000 BBBBBBBBBBBBBBBBA00000001 CCCCCCCCCCCCCCCCC00000001"
 
+// the parts of a module's text that the single-point edits change
 type variant struct {
-	code, note, legal, indent string
+	code, note, legal, indent, blank, ident, inmap string
 }
 
+// an inline input source map (edit "inmap": only its "sources" entry differs between the two builds)
+func inputMap(name, v string) string {
+	m := fmt.Sprintf(`{"version":3,"sources":["orig-%s-%s.ts"],"sourcesContent":["// original of %s\n"],"names":[],"mappings":"AAAA;AACA;AACA;AACA;AACA;AACA;AACA;AACA;AACA;AACA"}`, name, v, name)
+	return "//# sourceMappingURL=data:application/json;base64," + base64.StdEncoding.EncodeToString([]byte(m)) + "\n"
+}
+
+// module a additionally carries what the option-only edits act on: a define,
+// syntax that a lower target rewrites, a non-ASCII string (charset) and user
+// text of the placeholder shape
+const jsExtras = "export const opt = (o) => o?.v ?? \"d\"\nconsole.log(FLAG_X, \"caf\u00e9\")\nexport const fake = \"" + fakeKeys + "\"\n"
+
 func jsModule(name string, v variant, body string) string {
-	return fmt.Sprintf("/*! legal %s %s */\n// note %s %s\n%s%sconsole.log(\"%s-marker-%s\")\n", name, v.legal, name, v.note, body, v.indent, name, v.code)
+	extras := ""
+	if name == "a" {
+		extras = jsExtras
+	}
+	tail := ""
+	if v.inmap != "" {
+		tail = inputMap(name, v.inmap)
+	}
+	return fmt.Sprintf("/*! legal %s %s */\n// note %s %s\n%s%s%sfunction helper_%s_%s(p) { return [p, \"%s-marker-%s\"] }\n%sconsole.log(helper_%s_%s(\"%s\"))\n%s",
+		name, v.legal, name, v.note, v.blank, body, extras, name, v.ident, name, v.code, v.indent, name, v.ident, name, tail)
+}
+
+func cssModule(name string, v variant, body string) string {
+	return fmt.Sprintf("/*! legal %s %s */\n/* note %s %s */\n%s%s.m::after { content: \"%s-marker-%s caf\u00e9 %s\" }\n.t { inset: 0 }\n", name, v.legal, name, v.note, v.blank, body, name, v.code, fakeKeys)
 }
 
 type world struct {
@@ -95,9 +129,12 @@ type world struct {
 
 // materialise returns the input tree of a scenario; edited = after the edit
 func materialise(s scenario, edited bool) world {
-	base := variant{code: "v1", note: "v1", legal: "v1", indent: ""}
+	base := variant{code: "v1", note: "v1", legal: "v1", ident: "v1"}
 	vOf := func(target string) variant {
 		v := base
+		if s.Edit == "inmap" && target == s.Target {
+			v.inmap = "v1"
+		}
 		if !edited || target != s.Target {
 			return v
 		}
@@ -106,10 +143,16 @@ func materialise(s scenario, edited bool) world {
 			v.code = "v2"
 		case "comment":
 			v.note = "v2"
+		case "blank":
+			v.blank = "\n"
+		case "indent":
+			v.indent = "      "
 		case "legal":
 			v.legal = "v2"
-		case "smaponly":
-			v.indent = "      "
+		case "ident":
+			v.ident = "v2"
+		case "inmap":
+			v.inmap = "v2"
 		}
 		return v
 	}
@@ -118,14 +161,13 @@ func materialise(s scenario, edited bool) world {
 		asset = "ASSET-BYTES-v2\x00\x01"
 	}
 	w := world{files: map[string]string{}, loaders: map[string]api.Loader{".bin": api.LoaderFile, ".png": api.LoaderFile}}
-	fake := "export const fake = \"" + fakeKeys + "\"\n"
+	extra := ""
+	if edited && s.Edit == "importadd" {
+		extra = "export const lazyb = () => import('./b.js')\n"
+	}
 	switch s.Shape {
 	case "split", "splitasset":
-		extra := ""
-		if edited && s.Edit == "importadd" {
-			extra = "export const lazyb = () => import('./b.js')\n"
-		}
-		w.files["src/a.js"] = jsModule("a", vOf("a"), "import {s} from './shared.js'\n"+fake+extra+"console.log(s)\n")
+		w.files["src/a.js"] = jsModule("a", vOf("a"), "import {s} from './shared.js'\n"+extra+"console.log(s)\n")
 		w.files["src/b.js"] = jsModule("b", vOf("b"), "import {s} from './shared.js'\nconsole.log(s, 'b')\n")
 		if s.Shape == "splitasset" {
 			w.files["src/shared.js"] = jsModule("shared", vOf("shared"), "import x from './x.bin'\nexport const s = 'shared:' + x\n")
@@ -134,31 +176,61 @@ func materialise(s scenario, edited bool) world {
 			w.files["src/shared.js"] = jsModule("shared", vOf("shared"), "export const s = 'shared'\n")
 		}
 		w.entries = []string{"src/a.js", "src/b.js"}
+	case "statchain":
+		// shared.js is in the chunk of {a, b}, m2.js in the chunk of {a, b, c}: chunk -> chunk -> chunk
+		w.files["src/a.js"] = jsModule("a", vOf("a"), "import {s} from './shared.js'\n"+extra+"console.log(s)\n")
+		w.files["src/b.js"] = jsModule("b", vOf("b"), "import {s} from './shared.js'\nconsole.log(s, 'b')\n")
+		w.files["src/c.js"] = jsModule("c", vOf("c"), "import {m2} from './m2.js'\nconsole.log(m2, 'c')\n")
+		w.files["src/shared.js"] = jsModule("shared", vOf("shared"), "import {m2} from './m2.js'\nexport const s = 'shared:' + m2\n")
+		w.files["src/m2.js"] = jsModule("m2", vOf("m2"), "export const m2 = 'm2'\n")
+		w.entries = []string{"src/a.js", "src/b.js", "src/c.js"}
 	case "dyncycle":
-		w.files["src/a.js"] = jsModule("a", vOf("a"), fake+"export const toB = () => import('./b.js')\n")
+		w.files["src/a.js"] = jsModule("a", vOf("a"), "export const toB = () => import('./b.js')\n")
 		w.files["src/b.js"] = jsModule("b", vOf("b"), "export const toA = () => import('./a.js')\n")
 		w.entries = []string{"src/a.js"}
-	case "fileasset":
-		w.files["src/a.js"] = jsModule("a", vOf("a"), "import x from './x.bin'\n"+fake+"console.log(x)\n")
-		w.files["src/x.bin"] = asset
+	case "dynchain":
+		w.files["src/a.js"] = jsModule("a", vOf("a"), "export const toB = () => import('./b.js')\n")
+		w.files["src/b.js"] = jsModule("b", vOf("b"), "export const toC = () => import('./c.js')\n")
+		w.files["src/c.js"] = jsModule("c", vOf("c"), "export const leaf = 'c'\n")
 		w.entries = []string{"src/a.js"}
-	case "copy":
-		w.files["src/a.js"] = jsModule("a", vOf("a"), "import x from './x.bin'\n"+fake+"console.log(x)\n")
+	case "cycle3":
+		w.files["src/a.js"] = jsModule("a", vOf("a"), "export const toB = () => import('./b.js')\n")
+		w.files["src/b.js"] = jsModule("b", vOf("b"), "export const toC = () => import('./c.js')\n")
+		w.files["src/c.js"] = jsModule("c", vOf("c"), "export const toA = () => import('./a.js')\n")
+		w.entries = []string{"src/a.js"}
+	case "fileasset", "copy", "dataurl", "copyentry":
+		w.files["src/a.js"] = jsModule("a", vOf("a"), "import x from './x.bin'\nconsole.log(x)\n")
 		w.files["src/x.bin"] = asset
-		w.loaders[".bin"] = api.LoaderCopy
+		if s.Shape == "copyentry" {
+			// the copied file is an entry point itself: it is named by the entry template (bundler.go)
+			w.loaders[".bin"] = api.LoaderCopy
+			w.entries = []string{"src/a.js", "src/x.bin"}
+			break
+		}
+		if s.Shape == "copy" {
+			w.loaders[".bin"] = api.LoaderCopy
+		} else if s.Shape == "dataurl" {
+			w.loaders[".bin"] = api.LoaderDataURL
+		}
 		w.entries = []string{"src/a.js"}
 	case "cssurl":
-		v := vOf("a")
-		w.files["src/a.css"] = fmt.Sprintf("/*! legal a %s */\n/* note a %s */\nbody { background: url(./x.png) }\n.m::after { content: \"a-marker-%s %s\" }\n", v.legal, v.note, v.code, fakeKeys)
+		w.files["src/a.css"] = cssModule("a", vOf("a"), "body { background: url(./x.png) }\n")
 		w.files["src/x.png"] = asset
 		w.entries = []string{"src/a.css"}
+	case "jscss":
+		w.files["src/a.js"] = jsModule("a", vOf("a"), "import './a.css'\n")
+		w.files["src/a.css"] = cssModule("css", vOf("css"), "body { background: url(./x.png) }\n")
+		w.files["src/x.png"] = asset
+		w.entries = []string{"src/a.js"}
 	}
 	return w
 }
 
 const (
-	pp1 = "https://cdn.example/v1/"
-	pp2 = "https://cdn.example/v2/"
+	pp1   = "https://cdn.example/v1/"
+	pp2   = "https://cdn.example/v2/"
+	root1 = "https://src.example/r1/"
+	root2 = "https://src.example/r2/"
 )
 
 func options(s scenario, edited bool, root string, w world) api.BuildOptions {
@@ -174,31 +246,69 @@ func options(s scenario, edited bool, root string, w world) api.BuildOptions {
 		ChunkNames:    "chunks/[name]-[hash]",
 		AssetNames:    "assets/[name]-[hash]",
 		Loader:        w.loaders,
+		Define:        map[string]string{"FLAG_X": "1"},
 		Write:         false,
 		Metafile:      true,
 		LogLevel:      api.LogLevelSilent,
 	}
+	is := func(e string) bool { return edited && s.Edit == e }
 	if s.Names == "entryplain" {
 		o.EntryNames = "[name]"
 	}
-	if edited && s.Edit == "names" {
+	if is("entrynames") {
 		o.EntryNames = "e/" + o.EntryNames
+	}
+	if is("chunknames") {
+		o.ChunkNames = "c2/[name]-[hash]"
+	}
+	if is("assetnames") {
+		o.AssetNames = "media/[name]-[hash]"
+	}
+	if is("outext") {
+		o.OutExtension = map[string]string{".js": ".mjs", ".css": ".pcss"}
 	}
 	if s.PP {
 		o.PublicPath = pp1
-		if edited && s.Edit == "pp" {
+		if is("pp") {
 			o.PublicPath = pp2
 		}
+	} else if is("ppon") {
+		o.PublicPath = pp1
 	}
-	switch s.SM {
+	sm := s.SM
+	if is("smmode") {
+		sm = s.To
+	}
+	switch sm {
 	case "linked":
 		o.Sourcemap = api.SourceMapLinked
 	case "external":
 		o.Sourcemap = api.SourceMapExternal
 	case "inline":
 		o.Sourcemap = api.SourceMapInline
+	case "both":
+		o.Sourcemap = api.SourceMapInlineAndExternal
 	}
-	switch s.Legal {
+	sc := s.SC
+	if is("sctoggle") {
+		sc = !sc
+	}
+	if !sc {
+		o.SourcesContent = api.SourcesContentExclude
+	}
+	if s.SRoot {
+		o.SourceRoot = root1
+		if is("sroot") {
+			o.SourceRoot = root2
+		}
+	} else if is("sroot") {
+		o.SourceRoot = root1
+	}
+	legal := s.Legal
+	if is("legalmode") {
+		legal = s.To
+	}
+	switch legal {
 	case "none":
 		o.LegalComments = api.LegalCommentsNone
 	case "inline":
@@ -210,8 +320,33 @@ func options(s scenario, edited bool, root string, w world) api.BuildOptions {
 	case "external":
 		o.LegalComments = api.LegalCommentsExternal
 	}
-	if s.Minify {
-		o.MinifyWhitespace, o.MinifyIdentifiers, o.MinifySyntax = true, true, true
+	o.MinifyWhitespace, o.MinifyIdentifiers, o.MinifySyntax = s.Minify, s.Minify, s.Minify
+	if is("minws") {
+		o.MinifyWhitespace = !s.Minify
+	}
+	if is("minid") {
+		o.MinifyIdentifiers = !s.Minify
+	}
+	if is("minsyn") {
+		o.MinifySyntax = !s.Minify
+	}
+	if is("banner") {
+		o.Banner = map[string]string{"js": "/* banner text */", "css": "/* banner text */"}
+	}
+	if is("footer") {
+		o.Footer = map[string]string{"js": "/* footer text */", "css": "/* footer text */"}
+	}
+	if is("define") {
+		o.Define = map[string]string{"FLAG_X": "2"}
+	}
+	if is("target") {
+		o.Engines = []api.Engine{{Name: api.EngineChrome, Version: "70"}}
+	}
+	if is("charset") {
+		o.Charset = api.CharsetUTF8
+	}
+	if is("keepnames") {
+		o.KeepNames = true
 	}
 	return o
 }
@@ -220,6 +355,7 @@ func options(s scenario, edited bool, root string, w world) api.BuildOptions {
 
 type metaOut struct {
 	EntryPoint string                     `json:"entryPoint"`
+	CSSBundle  string                     `json:"cssBundle"`
 	Inputs     map[string]json.RawMessage `json:"inputs"`
 }
 type metafile struct {
@@ -247,7 +383,9 @@ func build(s scenario, edited bool, root string) built {
 	o := options(s, edited, root, w)
 	res := api.Build(o)
 	b := built{root: root, pp: o.PublicPath, meta: res.Metafile}
-	b.optsStr = fmt.Sprintf("EntryNames=%s ChunkNames=%s AssetNames=%s PublicPath=%q Sourcemap=%v LegalComments=%v Minify=%v Splitting ESM Bundle entries=%v", o.EntryNames, o.ChunkNames, o.AssetNames, o.PublicPath, o.Sourcemap, o.LegalComments, s.Minify, w.entries)
+	b.optsStr = fmt.Sprintf("EntryNames=%s ChunkNames=%s AssetNames=%s OutExtension=%v PublicPath=%q Sourcemap=%v SourcesContent=%v SourceRoot=%q LegalComments=%v MinifyWhitespace=%v MinifyIdentifiers=%v MinifySyntax=%v Banner=%v Footer=%v Define=%v Engines=%v Charset=%v KeepNames=%v Splitting ESM Bundle entries=%v loaders=%v",
+		o.EntryNames, o.ChunkNames, o.AssetNames, o.OutExtension, o.PublicPath, o.Sourcemap, o.SourcesContent, o.SourceRoot, o.LegalComments, o.MinifyWhitespace, o.MinifyIdentifiers, o.MinifySyntax,
+		o.Banner, o.Footer, o.Define, o.Engines, o.Charset, o.KeepNames, w.entries, w.loaders)
 	for _, e := range res.Errors {
 		b.errs = append(b.errs, e.Text)
 	}
@@ -265,25 +403,36 @@ func build(s scenario, edited bool, root string) built {
 		rel, _ := filepath.Rel(root, f.Path)
 		paths[filepath.ToSlash(rel)] = true
 	}
+	// the CSS bundle of a JS entry point is named by the entry template too
+	cssBundleOf := map[string]string{}
+	for _, m := range mf.Outputs {
+		if m.CSSBundle != "" && m.EntryPoint != "" {
+			cssBundleOf[m.CSSBundle] = m.EntryPoint
+		}
+	}
 	roleOf := func(p string) (role string, hashed bool, kind string) {
 		m := mf.Outputs[p]
-		ext := path.Ext(p)
-		kind = "asset"
-		if ext == ".js" || ext == ".css" {
-			kind = strings.TrimPrefix(ext, ".")
+		if ep := cssBundleOf[p]; ep != "" && m.EntryPoint == "" {
+			m.EntryPoint = ep
+		}
+		kind = kindOfPath(p)
+		sfx := ""
+		if kind == "css" {
+			// the CSS bundle of a JS entry point has the same entry point as the JS file
+			sfx = "#css"
 		}
 		switch {
 		case m.EntryPoint != "" && isEntry[m.EntryPoint]:
-			return "entry:" + m.EntryPoint, entryHashed, kind
+			return "entry:" + m.EntryPoint + sfx, entryHashed, kind
 		case m.EntryPoint != "":
-			return "dyn:" + m.EntryPoint, true, kind
+			return "dyn:" + m.EntryPoint + sfx, true, kind
 		case kind != "asset":
 			ins := make([]string, 0, len(m.Inputs))
 			for k := range m.Inputs {
 				ins = append(ins, k)
 			}
 			sort.Strings(ins)
-			return "chunk:" + strings.Join(ins, "+"), true, kind
+			return "chunk:" + strings.Join(ins, "+") + sfx, true, kind
 		default:
 			ins := make([]string, 0, len(m.Inputs))
 			for k := range m.Inputs {
@@ -412,9 +561,9 @@ func kindOfPath(p string) string {
 		return "legal"
 	case strings.HasSuffix(p, ".map"):
 		return "map"
-	case strings.HasSuffix(p, ".js"):
+	case strings.HasSuffix(p, ".js"), strings.HasSuffix(p, ".mjs"):
 		return "js"
-	case strings.HasSuffix(p, ".css"):
+	case strings.HasSuffix(p, ".css"), strings.HasSuffix(p, ".pcss"):
 		return "css"
 	}
 	return "asset"
@@ -510,7 +659,7 @@ func validate(r *core.Run, recs []*record, confirmed map[string]int, mu *sync.Mu
 				mu.Unlock()
 			}
 			r.Violation(map[string]interface{}{"invariant": inv, "edit": s.Edit, "legal": s.Legal, "witness": strings.Join(witness, "+"),
-				"shape": s.Shape, "target": s.Target, "pp": s.PP, "names": s.Names, "sm": s.SM, "minify": s.Minify},
+				"shape": s.Shape, "target": s.Target, "to": s.To, "pp": s.PP, "names": s.Names, "sm": s.SM, "sc": s.SC, "sroot": s.SRoot, "minify": s.Minify},
 				fmt.Sprintf("pair of real builds violates %s (scenario %s): collisions %v, names that did not change %v, changed roles %v, unresolved %v, unique keys in %v (metafile %d); predicted by Hash.tla: %v",
 					inv, s.id(), v.Collisions, v.Stuck, v.Changed, v.Unresolved, v.WithKeys, rc.MetaKeys, predicted[inv]),
 				map[string]interface{}{"scenario": s, "files_before": rc.files1, "files_after": rc.files2, "options_before": rc.opts1, "options_after": rc.opts2,
@@ -528,7 +677,7 @@ func validate(r *core.Run, recs []*record, confirmed map[string]int, mu *sync.Mu
 
 // ---------- the run ----------
 
-func runBatch(r *core.Run, scens []scenario, base int, confirmed map[string]int, cmu *sync.Mutex) {
+func runBatch(r *core.Run, scens []scenario, base int, confirmed map[string]int, cmu *sync.Mutex, vwg *sync.WaitGroup) {
 	type pair struct {
 		b1, b2 built
 	}
@@ -629,14 +778,12 @@ func runBatch(r *core.Run, scens []scenario, base int, confirmed map[string]int,
 	for i := range pairs {
 		pairs[i] = pair{}
 	}
-	const batch = 1500
-	for i := 0; i < len(recs); i += batch {
-		j := i + batch
-		if j > len(recs) {
-			j = len(recs)
-		}
-		validate(r, recs[i:j], confirmed, cmu)
-	}
+	// state validation runs while the next batch is being built
+	vwg.Add(1)
+	go func() {
+		defer vwg.Done()
+		validate(r, recs, confirmed, cmu)
+	}()
 }
 
 type candidate struct {
@@ -645,6 +792,7 @@ type candidate struct {
 	SM      string   `json:"sm"`
 	LV      int      `json:"lv"`
 	Failing []string `json:"failing"`
+	Variant []string `json:"variant"`
 }
 
 func Run(r *core.Run) {
@@ -672,7 +820,9 @@ func Run(r *core.Run) {
 		}
 		confirmed := map[string]int{}
 		var cmu sync.Mutex
-		runBatch(r, []scenario{rp.Detail.Scenario}, 0, confirmed, &cmu)
+		var vwg sync.WaitGroup
+		runBatch(r, []scenario{rp.Detail.Scenario}, 0, confirmed, &cmu, &vwg)
+		vwg.Wait()
 		r.Set("rule", "replay of one scenario")
 		return
 	}
@@ -681,54 +831,70 @@ func Run(r *core.Run) {
 	var wg sync.WaitGroup
 	var cands []candidate
 	var candMu sync.Mutex
-	cfgs := []string{"Hash.quick.cfg"}
+	// necessity[ingredient] = the edit kinds that reveal (on the model) that the ingredient is left out of the hashes
+	necessity := map[string]map[string]bool{}
+	cfgs := []string{"Hash.quick.cfg", "Hash.dropq.cfg"}
 	if r.Thorough() {
-		cfgs = []string{"Hash.thorough.cfg", "Hash.n3.cfg"}
+		cfgs = []string{"Hash.quick.cfg", "Hash.thorough.cfg", "Hash.n3.cfg", "Hash.drop.cfg"}
 	}
 	seen := map[string]bool{}
 	for _, cfg := range cfgs {
 		wg.Add(1)
 		go func(cfg string) {
 			defer wg.Done()
-			// lih = TRUE (candidate repair): all four properties must hold on the model (AllHold);
-			// lih = FALSE (the code as it is): counterexamples on the model are exported as candidates only
-			res := tlcrun.MustHold(r, tlcrun.Options{Module: "HashMC", Config: cfg, Workers: r.Pick(3, 4), TimeoutSec: 2400, OnCase: func(raw []byte) {
+			// the design (nothing dropped, both repairs): all four properties must hold on the model (AllHold);
+			// every other variant (an ingredient left out, the code before a repair): its counterexamples on
+			// the model are exported (candidates / necessity of the ingredient), never verdicts
+			tlcrun.MustHold(r, tlcrun.Options{Module: "HashMC", Config: cfg, Workers: r.Pick(2, 4), TimeoutSec: 2400, OnCase: func(raw []byte) {
 				var c candidate
-				if json.Unmarshal(raw, &c) == nil {
-					k := fmt.Sprintf("%s/%s/%v", c.Edit, c.Legal, c.Failing)
-					candMu.Lock()
-					if !seen[k] {
-						seen[k] = true
-						c.SM, c.LV = "", 0
-						cands = append(cands, c)
+				if json.Unmarshal(raw, &c) != nil {
+					return
+				}
+				candMu.Lock()
+				defer candMu.Unlock()
+				if len(c.Variant) == 1 && c.Variant[0] != "mih" && c.Variant[0] != "lih" {
+					if necessity[c.Variant[0]] == nil {
+						necessity[c.Variant[0]] = map[string]bool{}
 					}
-					candMu.Unlock()
+					necessity[c.Variant[0]][c.Edit] = true
+					return
+				}
+				k := fmt.Sprintf("%s/%s/%v/%v", c.Edit, c.Legal, c.Failing, c.Variant)
+				if !seen[k] {
+					seen[k] = true
+					c.SM, c.LV = "", 0
+					cands = append(cands, c)
 				}
 			}})
-			_ = res
 		}(cfg)
 	}
 
+	// the scenario triples: one seeded slice of the space of HashGen.tla (several in the thorough tier)
 	var scens []scenario
 	genCfg := "HashGen.cfg"
-	genFiles := map[string]string{}
+	nSlices := 1
 	if r.Thorough() {
 		genCfg = "HashGen.thorough.cfg"
-	} else {
-		// quick tier: one of the two minify settings, chosen by the seed (the thorough tier enumerates both)
+		nSlices = 6
+	}
+	genFiles := map[string]string{}
+	{
 		b, err := os.ReadFile(filepath.Join(r.Verif, "spec", "cfg", genCfg))
 		if err != nil {
 			r.Infra("cannot read %s: %v", genCfg, err)
 			return
 		}
-		pick := "{FALSE}"
-		if r.Seed%2 == 1 {
-			pick = "{TRUE}"
+		var sl []string
+		for i := 0; i < nSlices; i++ {
+			sl = append(sl, fmt.Sprint(i))
 		}
-		genFiles[genCfg] = strings.Replace(string(b), "Minifies = {FALSE, TRUE}", "Minifies = "+pick, 1)
+		txt := string(b)
+		txt = replaceLine(txt, "  Slices = ", "  Slices = {"+strings.Join(sl, ", ")+"}")
+		txt = replaceLine(txt, "  Salt = ", fmt.Sprintf("  Salt = %d", (r.Seed%1000003+1000003)%1000003))
+		genFiles[genCfg] = txt
 	}
 	var smu sync.Mutex
-	res := tlcrun.MustHold(r, tlcrun.Options{Module: "HashGen", Config: genCfg, Files: genFiles, Workers: 4, TimeoutSec: 900, OnCase: func(raw []byte) {
+	res := tlcrun.MustHold(r, tlcrun.Options{Module: "HashGen", Config: genCfg, Files: genFiles, Workers: r.Pick(4, 8), TimeoutSec: 1200, OnCase: func(raw []byte) {
 		var s scenario
 		if json.Unmarshal(raw, &s) == nil {
 			smu.Lock()
@@ -744,42 +910,81 @@ func Run(r *core.Run) {
 	sort.Slice(scens, func(i, j int) bool { return scens[i].id() < scens[j].id() })
 	r.Set("scenarios_enumerated", len(scens))
 	predicted := 0
+	isolating := map[string]int{}
+	dims := map[string]map[string]int{"shape": {}, "edit": {}, "sm": {}, "legal": {}}
 	for _, s := range scens {
 		if len(s.Expect) > 0 {
 			predicted++
 		}
-	}
-	r.Set("scenarios_predicted_to_fail_by_model", predicted)
-	if !r.Thorough() {
-		var pick []scenario
-		for _, s := range scens {
-			p := 6
-			if len(s.Expect) > 0 {
-				p = 2
-			}
-			if r.Rand.Intn(p) == 0 {
-				pick = append(pick, s)
+		// "imports" is touched whenever the edited chunk is imported by another one: it is never alone
+		var own []string
+		for _, t := range s.Touch {
+			if t == "imports" {
+				isolating["imports"]++
+			} else {
+				own = append(own, t)
 			}
 		}
-		scens = pick
+		if len(own) == 1 {
+			isolating[own[0]]++
+		}
+		dims["shape"][s.Shape]++
+		dims["edit"][s.Edit]++
+		dims["sm"][s.SM]++
+		dims["legal"][s.Legal]++
 	}
-	r.Logf("%d scenario triples to build twice", len(scens))
+	r.Set("scenarios_predicted_to_fail_by_model", predicted)
+	r.Set("scenarios_isolating_one_hash_ingredient", isolating)
+	r.Set("scenarios_per_dimension_value", dims)
+	r.Logf("%d scenario triples to build twice (isolating one ingredient: %v)", len(scens), isolating)
 	confirmed := map[string]int{}
 	var cmu sync.Mutex
-	const chunk = 1500
+	const chunk = 800
+	var vwg sync.WaitGroup
 	for i := 0; i < len(scens); i += chunk {
 		j := i + chunk
 		if j > len(scens) {
 			j = len(scens)
 		}
-		runBatch(r, scens[i:j], i, confirmed, &cmu)
+		runBatch(r, scens[i:j], i, confirmed, &cmu, &vwg)
 	}
+	vwg.Wait()
 	wg.Wait()
 	candMu.Lock()
-	r.Set("model_candidates_code_as_is", cands)
+	if cands == nil {
+		cands = []candidate{}
+	}
+	r.Set("model_candidates_code_before_repair", cands)
+	nec := map[string][]string{}
+	var uncovered []string
+	for d, eds := range necessity {
+		for e := range eds {
+			nec[d] = append(nec[d], e)
+		}
+		sort.Strings(nec[d])
+		if isolating[d] == 0 {
+			uncovered = append(uncovered, d)
+		}
+	}
+	sort.Strings(uncovered)
 	candMu.Unlock()
+	r.Set("model_ingredient_necessity", nec)
+	r.Set("necessary_ingredients_without_isolating_scenario", uncovered)
+	if len(uncovered) > 0 {
+		r.Logf("coverage gap: no built scenario isolates the necessary ingredient(s) %v", uncovered)
+	}
 	r.Set("model_candidates_confirmed_on_real_builds", confirmed)
 	r.Set("rule", "case = one (graph shape x options x edit) triple of HashGen.tla built twice with the real api.Build (before/after the edit); non-trivial = the edit changed at least one emitted byte or path; every pair becomes one record (paths, digests, roles, parsed references, unique-key hits) validated by TLC against HashState.tla")
+}
+
+func replaceLine(txt, prefix, with string) string {
+	lines := strings.Split(txt, "\n")
+	for i, l := range lines {
+		if strings.HasPrefix(l, prefix) {
+			lines[i] = with
+		}
+	}
+	return strings.Join(lines, "\n")
 }
 
 func init() { core.Register("C18", Run) }
